@@ -334,10 +334,7 @@ Definition o_remove_all (s : ofs) (path : str) : ofs * res :=
    The Go loop ranges over the map it mutates.  [order] is the sequence of keys the range statement
    produces: every key present when the loop starts and not deleted before it is reached is produced
    exactly once; a key inserted by the loop may or may not be produced (Go leaves both the order and
-   this choice unspecified).  [o_rekey_go] is the loop for one such sequence; the model uses the keys
-   in index order and does not revisit inserted keys.  OrefaProps.rekey_order_irrelevant shows that
-   when the new path is not below the old one (which Rename now checks) no inserted key matches the
-   prefix and every admissible [order] gives the same map. *)
+   this choice unspecified).  [o_rekey_go] is the loop for one such sequence. *)
 Definition o_rekey_step (os : ostype) (o_abs n_abs : str) (idx : list (str * nat)) (k : str) : list (str * nat) :=
   match ikey idx k with
   | Some i =>
@@ -349,6 +346,16 @@ Definition o_rekey_step (os : ostype) (o_abs n_abs : str) (idx : list (str * nat
 
 Definition o_rekey_go (os : ostype) (o_abs n_abs : str) (order : list str) (idx : list (str * nat)) : list (str * nat) :=
   fold_left (o_rekey_step os o_abs n_abs) order idx.
+
+(* What the model's Rename uses: every key below the old path is re-keyed in place.  As a map this is
+   what the loop above computes for every admissible [order] when no re-keyed path collides with or lies
+   below the old path (Rename refuses to move a directory into itself, and nothing lies below the new
+   name, which does not exist): the loop visits every key that matches once, the keys it inserts never
+   match, so neither the order nor whether inserted keys are visited matters.  The list order of the
+   association list is not observable (all accesses are look-ups). *)
+Definition o_rekey (os : ostype) (o_abs n_abs : str) (idx : list (str * nat)) : list (str * nat) :=
+  map (fun e : str * nat =>
+         if is_prefix (o_abs ++ [sepc os]) (fst e) then (n_abs ++ skipn (length o_abs) (fst e), snd e) else e) idx.
 
 (* Rename, orefafs.go *)
 Definition o_rename (s : ofs) (oldname newname : str) : ofs * res :=
@@ -380,7 +387,7 @@ Definition o_rename (s : ofs) (oldname newname : str) : ofs * res :=
               let h2 := o_add_child h1 np n_file oc in
               let h3 := o_del_child h2 op o_file in
               let idx1 := aremove str_eqb o_abs (aset str_eqb n_abs oc (o_index s)) in
-              let idx2 := if on_dir ocn then o_rekey_go (o_os s) o_abs n_abs (map fst idx1) idx1 else idx1 in
+              let idx2 := if on_dir ocn then o_rekey (o_os s) o_abs n_abs idx1 else idx1 in
               (o_with s idx2 h3, ROk)
       | Some (_, opn), None, _ =>
           if negb (on_dir opn) then (s, RFail ENotADirectory) else (s, o_enf s n_abs (RFail ENoSuchFile))
